@@ -106,6 +106,10 @@ class Reductions(Contract):
                         continue
                     if fn == 'sort' and max(shape) > 3:
                         continue
+                    if fn in ('trace', 'diagonal') and shape[0] != shape[1]:
+                        for off in (1, -1):
+                            for route in ('np', 'method'):
+                                yield dict(fn=fn, fmt=list(fm), shape=list(shape), axis=None, route=route, offset=off)
                     for axis in (axes if fn in ('sum', 'cumsum', 'prod', 'cumprod', 'max', 'min') else ([-1] if fn == 'sort' else [None])):
                         if fn == 'cumprod' and axis is not None and len(shape) > 1:
                             pass
@@ -148,9 +152,11 @@ class Reductions(Contract):
             lo, hi = -0.75, 1.5
             z = np.clip(x, lo, hi) if route == 'np' else x.clip(lo, hi)
         elif fn == 'trace':
-            z = np.trace(x) if route == 'np' else x.trace()
+            off = cfg.get('offset', 0)
+            z = np.trace(x, offset=off) if route == 'np' else x.trace(offset=off)
         elif fn == 'diagonal':
-            z = np.diagonal(x) if route == 'np' else x.diagonal()
+            off = cfg.get('offset', 0)
+            z = np.diagonal(x, offset=off) if route == 'np' else x.diagonal(offset=off)
         o = obs_fxp(z)
         o.update(unchanged=all(x.__dict__[k] is b[k] for k in b) and same_elems(elems(x.val), v0),
                  separate=z is not x and z.config is not x.config and z.status is not x.status and not shares_buffer(z.val, x.val))
@@ -178,10 +184,13 @@ class Reductions(Contract):
             eshape, exp = _cumulative(shape, vals, axis, lambda a, b: a + b)
         elif fn == 'cumprod':
             eshape, exp = _cumulative(shape, vals, axis, lambda a, b: a * b)
-        elif fn == 'trace':
-            eshape, exp = (), [msum([vals[i * shape[1] + i] for i in range(min(shape))])]
-        elif fn == 'diagonal':
-            eshape, exp = (min(shape),), [vals[i * shape[1] + i] for i in range(min(shape))]
+        elif fn in ('trace', 'diagonal'):
+            off = cfg.get('offset', 0)
+            dg = [vals[i * shape[1] + (i + off)] for i in range(shape[0]) if 0 <= i + off < shape[1]]
+            if fn == 'trace':
+                eshape, exp = (), [msum(dg)]
+            else:
+                eshape, exp = (len(dg),), dg
         elif fn == 'transpose':
             idx = _idx(shape)
             pos = {ix: k for k, ix in enumerate(idx)}
